@@ -40,16 +40,16 @@ def _merge(base, over):
 
 
 PROFILES = {
-    "C01": _merge(BASE, {"mut": {"ADD_OP": 50, "ADD_SUB": 12, "APPLY": 6, "COPY": 1, "FLATTEN": 0, "NEW_LIB": 0, "SET_DUR": 6},
-                         "obs": {"TIMES": 12, "FULL": 12, "PLOT": 0, "OPENQL": 0}, "p_rel": 0.45, "p_regdur": 0.3,
+    "C01": _merge(BASE, {"mut": {"ADD_OP": 50, "ADD_OP_IN": 5, "ADD_SUB": 12, "APPLY": 6, "COPY": 1, "FLATTEN": 0, "NEW_LIB": 0, "SET_DUR": 6},
+                         "obs": {"TIMES": 12, "FULL": 12, "PLOT": 2, "OPENQL": 0}, "p_rel": 0.45, "p_regdur": 0.3,
                          "flt": {"SINK_FAIL": 0}, "class": {"mut": 66, "obs": 30, "flt": 4}}),
     "C02": _merge(BASE, {"mut": {"ADD_OP": 50, "ADD_OP_IN": 8, "ADD_SUB": 14, "APPLY": 3, "FLATTEN": 1, "NEW_LIB": 0, "SET_DUR": 1, "OVR_ENTER": 1, "OVR_LEAVE": 1},
                          "obs": {"LIST": 12, "LIST_TWICE": 10, "LAST": 5, "COMPOSITES": 5, "FULL": 5, "PLOT": 0, "OPENQL": 0},
                          "p_rel": 0.4, "flt": {"SINK_FAIL": 0}, "class": {"mut": 62, "obs": 34, "flt": 4}}),
     "C03": _merge(BASE, {"class": {"mut": 48, "obs": 38, "flt": 14}, "mut": {"SET_DUR": 6, "OVR_ENTER": 5, "OVR_LEAVE": 5, "APPLY": 6},
                          "p_regdur": 0.35}),
-    "C04": _merge(BASE, {"mut": {"ADD_OP": 50, "ADD_SUB": 14, "APPLY": 3, "FLATTEN": 0, "NEW_LIB": 0, "COPY": 1, "SET_DUR": 6},
-                         "obs": {"DURATION": 8, "TIMES": 12, "COMP_TIMES": 6, "FULL": 10, "PLOT": 0, "OPENQL": 0, "STIM": 1},
+    "C04": _merge(BASE, {"mut": {"ADD_OP": 50, "ADD_OP_IN": 6, "ADD_SUB": 14, "APPLY": 3, "FLATTEN": 0, "NEW_LIB": 0, "COPY": 1, "SET_DUR": 6},
+                         "obs": {"DURATION": 8, "TIMES": 12, "COMP_TIMES": 6, "FULL": 10, "PLOT": 2, "OPENQL": 0, "STIM": 1},
                          "p_rel": 0.6, "p_regdur": 0.3, "flt": {"SINK_FAIL": 0}, "class": {"mut": 64, "obs": 32, "flt": 4},
                          "kinds_bias": ["Wait", "SingleQubitOperation", "TwoQubitOperation", "VirtualVacant"]}),
     "C05": _merge(BASE, {"mut": {"ADD_OP": 40, "ADD_SUB": 16, "COPY": 12, "APPLY": 5, "FLATTEN": 1, "NEW_LIB": 0},
@@ -323,8 +323,10 @@ class Gen:
         # channels the block already occupies keep that placement meaningful (anything else is outside the workload)
         from sim.model import kind_channels
         have = m.channels_of(m.entries[name][k])
+        used_qubits = {c[0] for c in m.channels_of(m.roots[name])}
         new_ch = kind_channels(kind, st["q"], st.get("chan") if kind in TAKES_CHAN else None)
-        if not all(any(e == c or (e[0] == c[0] and e[1] == "ALL") for e in have) for c in new_ch):
+        # ... or on a qubit nothing in the whole circuit uses yet (cannot change any earlier placement either)
+        if not all(c[0] not in used_qubits or any(e == c or (e[0] == c[0] and e[1] == "ALL") for e in have) for c in new_ch):
             return False
         self.emit(st)
         try:
